@@ -857,6 +857,9 @@ pub fn witnesses() -> Vec<String> {
     "id: of\nlanguage: js\nutils:\n  U: {nthChild: {position: 1, ofRule: {matches: U}}}\nrule: {matches: U}\n".into(),
     "id: ell\nlanguage: java\nrule: {kind: identifier, pattern: $$$}\n".into(),
     "id: ell2\nlanguage: js\nrule: {kind: identifier, pattern: $$$}\n".into(),
+    "id: rwrel\nlanguage: js\nrule: {kind: string_fragment, pattern: $V}\ntransform: {T: {rewrite: {rewriters: [rw], source: $V, joinBy: \", \"}}}\nrewriters:\n- {id: rw, rule: {inside: {kind: string, stopBy: end}}, fix: \"($V)\"}\nfix: $T\n".into(),
+    "id: rwrel2\nlanguage: js\nrule: {kind: identifier, pattern: $V}\ntransform: {T: {rewrite: {rewriters: [rw], source: $V}}}\nrewriters:\n- {id: rw, rule: {inside: {kind: program, stopBy: end}}, fix: \"($V)\"}\nfix: $T\n".into(),
+    "id: rwrel3\nlanguage: js\nrule: {kind: call_expression, pattern: $V}\ntransform: {T: {rewrite: {rewriters: [rw], source: $V}}}\nrewriters:\n- {id: rw, rule: {precedes: {kind: identifier, stopBy: end}}, fix: \"<>\"}\nfix: $T\n".into(),
     "id: of2\nlanguage: js\nutils:\n  U: {kind: identifier, nthChild: {position: 1, ofRule: {matches: W}}}\n  W: {any: [{matches: U}]}\nrule: {kind: identifier, matches: U}\n".into(),
   ]
 }
